@@ -193,7 +193,7 @@ theorem shard_fn_in_range (n : Namespace) (r : Router) (h : newRouter n = .ok r)
 
 /-- mycat_mod: the same for every key whose integer value is not MinInt64.
     (Full statement, false of the code on this branch: without `hmin`; see
-    `mycatMod_negative_index_witness`.  Repaired by 834ed28 on branch agent-shard.) -/
+    `mycatMod_negative_index_witness`.  Repaired by 722beea on branch agent-shard.) -/
 theorem mycatMod_in_range_partial (n : Namespace) (r : Router) (h : newRouter n = .ok r)
     (k : Str × Str) (rule : Rule) (hk : r.get k = some rule)
     (m : Int) (hm : rule.target.shard = .mycatMod m)
